@@ -198,13 +198,13 @@ def prog_reply(rows):
 # ------------------------------------------------------------------------------------------------
 # repair cost of one emission
 # ------------------------------------------------------------------------------------------------
-def impl_repair(start, nrd, delay, n, cost, events):
+def impl_repair(start, nrd, delay, n, cost, events, intermittent=False, adur=1, idur=0):
     """per day (repair_cost, nat_repair_cost) booked in that day's EmisInfo by the real
     RepairableEmission driven through the real Component; plus the emission"""
     from harness.adapters import emission as E
     from scheduling.schedule_dataclasses import TaggingInfo
 
-    em = E.make_emission(start, nrd, delay, True, False, 1, 0, cost=cost)
+    em = E.make_emission(start, nrd, delay, True, intermittent, adur, idur, cost=cost)
     comp = E.make_component([em])
     per_day = []
     status = []
@@ -221,8 +221,9 @@ def impl_repair(start, nrd, delay, n, cost, events):
     return per_day, status, em
 
 
-def repair_line(start, nrd, delay, n, cost, events):
-    return "repair %d %d %d %d %d [%s]" % (start, nrd, delay, n, cost, ",".join("[%d,%d,%d]" % e for e in events))
+def repair_line(start, nrd, delay, n, cost, events, intermittent=False, adur=1, idur=0):
+    base = "repair %d %d %d %d %d [%s]" % (start, nrd, delay, n, cost, ",".join("[%d,%d,%d]" % e for e in events))
+    return base + (" 1 %d %d" % (adur, idur) if intermittent else "")
 
 
 def repair_reply(per_day):
